@@ -340,6 +340,11 @@ Definition expand_macro (pp : list mtok -> mres (list mtok)) (e : env) (t : mtok
       end
   end.
 
+(* a token of the source text, as opposed to one that results from macro replacement: every replacement
+   token carries at least the name of its macro in its hide set (add_hideset), source tokens carry none.
+   Only a source '#' begins a directive (C11 6.10.3.4p3; is_hash tests tok->origin) *)
+Definition from_source (t : mtok) : bool := match m_hs t with [] => true | _ => false end.
+
 (* preprocess2 without directive handling: used for macro arguments *)
 Fixpoint pp_args (f : nat) (e : env) (ts : list mtok) : mres (list mtok) :=
   match f with
@@ -352,7 +357,7 @@ Fixpoint pp_args (f : nat) (e : env) (ts : list mtok) : mres (list mtok) :=
       | Exp ts' => pp_args f' e ts'
       | ExpErr => MErr | ExpFuel => MFuel | ExpUnsup => MUnsup
       | NoExp =>
-        if m_bol t && is t HASH then MUnsup
+        if m_bol t && is t HASH && from_source t then MUnsup
         else match pp_args f' e r with MOk l => MOk (t :: l) | x => x end
       end
     end
@@ -369,7 +374,7 @@ Fixpoint pp2 (f : nat) (e : env) (ts : list mtok) : mres (list mtok) :=
       | Exp ts' => pp2 f' e ts'
       | ExpErr => MErr | ExpFuel => MFuel | ExpUnsup => MUnsup
       | NoExp =>
-        if m_bol t && is t HASH then
+        if m_bol t && is t HASH && from_source t then
           match r with
           | d :: r1 =>
             if is d DEFINE then
